@@ -18,7 +18,23 @@ R5 hand-over in `_synchronize_workflows`: in the recovering branch the *running*
    awaited before the request records the new workflow, on every path; `RecoveryRequest.workflow`
    is written nowhere else.
 R6 (added) every coroutine call on the synchronisation path is awaited.
+R7 (added, seeded change C19/1) the answer to `is this job already being recovered` is obtained under the request
+   locks.  The test of `_synchronize_workflows` that separates the hand-over from the rollback is located through
+   the provenance of its condition (`_util_D.recovering_decision`): an `is_recovering()` call, a boolean local, an
+   extracted predicate returning it, or a *snapshot* - membership in a collection of names selected by
+   `is_recovering` (comprehension, or loop + add), a mapping name -> answer - also when the snapshot arrives as a
+   parameter (call sites followed through the whole-program call index).  Every `is_recovering()` evaluation the
+   decision reads must lie in `_synchronize_workflows` itself (entered only under the locks: R1, R5) or, in
+   `_recover`, inside the `async with` that releases the locks and after every acquisition (CFG dominance by the
+   acquisition loop, no acquisition reachable from it).  Nec.: a snapshot taken before the locks is stale once the
+   recoveries are serialised by them - each waiting recovery takes the rollback branch, bumps the version, notifies
+   ROLLBACK again and re-runs the producer; nothing is shared.  A decision that reads no `is_recovering()` answer
+   at all (e.g. the request's recorded workflow) is reported too.  R5 (and C17.R2) evaluate their obligations on
+   the same located test, so a snapshot shape no longer makes them refuse.
 Undecided: at-most-once re-execution per loss.
+Not decided by R7: `is_recovering()` evaluated inside the acquisition loop under the request's own lock only, and the
+pre-lock read of `is_recovering` by `ProvenanceGraph.build_graph` (it prunes the search; the binding decision is the
+one of `_synchronize_workflows`).
 """
 
 from __future__ import annotations
@@ -51,7 +67,7 @@ from ._util_D import (
     is_builtin_call,
     lock_sites,
     mentions,
-    outcomes_when,
+    recovering_decision,
     receiver_may_be,
     recovering_statuses,
     region,
@@ -67,7 +83,10 @@ META = {
         "job-independent key, de-duplicated names, same collection as the synchronised one), lexical/CFG scope of the "
         "AsyncExitStack versus executor.run, suspension-freedom and storage of per-job requests (whole-program "
         "constructor and who-may-write sweep), fold of is_recovering over Status, and the two hand-over branches of "
-        "_synchronize_workflows. Decides necessary conditions for deadlock-freedom and sharing; interleavings are not executed."
+        "_synchronize_workflows (located through the provenance of the is_recovering answer: direct call, boolean local, "
+        "extracted predicate, snapshot collection / mapping, also across the call into _synchronize_workflows), and the "
+        "position of every is_recovering evaluation feeding that decision relative to the lock scope of _recover (R7). "
+        "Decides necessary conditions for deadlock-freedom and sharing; interleavings are not executed."
     ),
     "undecided": "at-most-once re-execution per loss; delivery of regenerated tokens through the boundary rules (C03)",
     "assumptions": ["asyncio.Lock is not re-entrant", "id() is a total order on live objects; job names are unique"],
@@ -230,16 +249,7 @@ def r2(ctx):
     f, g, acq, sync, runs = _recover_facts(ctx)
     ctx.require(bool(runs), "C19.R2: executor.run() not found in _recover")
     ctx.require(bool(acq), "C19.R2: no lock acquisition found in _recover")
-    scopes = []
-    for nid, x, loop, call in acq:
-        n = g.nodes[nid]
-        if n.kind == "with_enter":
-            scopes.append(n.ast)
-        elif call is not None:
-            st = unparse(call.func.value)
-            for a in ancestors(x):
-                if isinstance(a, (ast.AsyncWith, ast.With)) and any(isinstance(it.optional_vars, ast.Name) and it.optional_vars.id == st for it in a.items):
-                    scopes.append(a)
+    scopes = _lock_scopes(g, acq)
     ctx.require(bool(scopes), "C19.R2: the scope that releases the request locks (async with) was not found")
     later = [("executor.run", c) for c in runs]
     later += [("_inject_tokens", c) for c, _ in stage_calls(p, f, [f"{FM}._inject_tokens"])]
@@ -369,6 +379,30 @@ def _ports_owner(f, expr, depth=2):
     return out
 
 
+def _decision(ctx, rule):
+    p = ctx.prog
+    f = p.func(f"{RFM}._synchronize_workflows")
+    try:
+        return recovering_decision(p, f, f"{RFM}._update_request")
+    except Uninterpretable as e:
+        ctx.require(False, f"C19.{rule}: {e}")
+
+
+def _lock_scopes(g, acq):
+    """The `async with` statements whose exit releases the acquired request locks."""
+    scopes = []
+    for nid, x, loop, call in acq:
+        n = g.nodes[nid]
+        if n.kind == "with_enter":
+            scopes.append(n.ast)
+        elif call is not None:
+            st = unparse(call.func.value)
+            for a in ancestors(x):
+                if isinstance(a, (ast.AsyncWith, ast.With)) and any(isinstance(it.optional_vars, ast.Name) and it.optional_vars.id == st for it in a.items):
+                    scopes.append(a)
+    return scopes
+
+
 # --------------------------------------------------------------------------- R5
 
 
@@ -376,14 +410,11 @@ def r5(ctx):
     p = ctx.prog
     f = p.func(f"{RFM}._synchronize_workflows")
     g = f.cfg
-    tests = [n for n in g.nodes.values() if n.kind == "test" and any(isinstance(c.func, ast.Attribute) and c.func.attr == "is_recovering" for c in n.calls())]
-    ctx.require(len(tests) == 1, f"C19.R5: expected one is_recovering test in _synchronize_workflows, found {len(tests)}")
-    t = tests[0]
-    rc = next(c for c in t.calls() if isinstance(c.func, ast.Attribute) and c.func.attr == "is_recovering")
-    yes = outcomes_when(t.ast, lambda a: a is rc, True)
-    no = outcomes_when(t.ast, lambda a: a is rc, False)
-    ctx.require(bool(yes) and bool(no) and len(yes) == 1 and len(no) == 1 and yes != no, "C19.R5: cannot separate the two outcomes of the is_recovering test")
-    yes_reg, no_reg = region(g, t.id, next(iter(yes))), region(g, t.id, next(iter(no)))
+    # the test that separates the hand-over from the rollback (direct call, boolean local, extracted predicate or
+    # a snapshot of is_recovering answers - where the answer is evaluated is R7's business)
+    dec = _decision(ctx, "R5")
+    t = dec.test
+    yes_reg, no_reg = region(g, t.id, dec.yes), region(g, t.id, dec.no)
     loop = next((a for a in ancestors(t.ast) if isinstance(a, ast.For)), None)
     ctx.require(loop is not None and isinstance(loop.target, ast.Name), "C19.R5: the is_recovering test is not in the loop over the requests")
     req = loop.target.id
@@ -515,7 +546,7 @@ def r5(ctx):
     ok_branch = bool(rids) and all(i in no_reg and i not in yes_reg for i in rids)
     ok_order = bool(uids) and all(g.dominates(uids, i) for i in rids) and all(u in no_reg for u in uids)
     esc = None
-    for s in succ(g, t.id, next(iter(no))):
+    for s in succ(g, t.id, dec.no):
         if s in rids:
             continue
         esc = esc or g.path(s, [g.exit, *heads], avoid=rids)
@@ -575,14 +606,122 @@ def r6(ctx):
     check_defined(ctx, "R6", names, classes=[RFM, REQ])
 
 
-RULES = [("R1", r1), ("R2", r2), ("R3", r3), ("R4", r4), ("R5", r5), ("R6", r6)]
-FLOORS = {"R1": 5, "R2": 2, "R3": 8, "R4": 4, "R5": 9, "R6": 14}
+# --------------------------------------------------------------------------- R7
+
+
+def r7(ctx):
+    """The answer to `is this job already being recovered` is obtained while the request locks are held."""
+    p = ctx.prog
+    f = p.func(f"{RFM}._synchronize_workflows")
+    dec = _decision(ctx, "R7")
+    what = "the hand-over / rollback decision uses an is_recovering() answer obtained while the request locks are held"
+    if not dec.traced:
+        ctx.ob("R7", what, False, func=f, node=dec.test.ast, instance="decision:source",
+               message=f"_synchronize_workflows chooses between hand-over and rollback by `{unparse(dec.cond)[:80]}`, which is not the answer of an is_recovering() "
+               "call: whether another recovery already re-executes the job is not asked of the scheduler under the request lock")
+        return
+    rec, g, acq, sync, runs = _recover_facts(ctx)
+    scopes = _lock_scopes(g, acq)
+    heads = sorted({i for _, _, loop, _ in acq if loop is not None for i in g.ids_of(loop)} | {nid for nid, _, loop, _ in acq if loop is None})
+    seen = set()
+    for h, c in dec.calls:
+        if id(c) in seen:
+            continue
+        seen.add(id(c))
+        if not dec.snapshot or h is f:
+            # evaluated by the test itself / inside _synchronize_workflows, which only runs under the locks (R1, R5)
+            ok, where = True, ""
+        elif h is rec:
+            cid = g.node_containing(c)
+            inside = any(a in scopes for a in ancestors(c))
+            after = bool(heads) and bool(cid) and all(g.dominates(heads, i) for i in cid) and not any(nid in g.reach(cid) for nid, _, _, _ in acq)
+            ok = inside and after
+            where = "before the request locks are acquired" if not after else "after the request locks were released"
+            if ok:
+                where = ""
+        else:
+            ok, where = False, f"in {h.qualname}, outside the lock scope of _recover"
+        ctx.ob("R7", what, ok, func=h, node=c, instance=f"decision:under-locks:{h.name}",
+               message=f"`{unparse(c)}` in {h.name} is evaluated {where}; _synchronize_workflows later decides on that snapshot (`{unparse(dec.atom)[:60]}`) "
+               "while holding the locks: a concurrent recovery that rolled the job back in between is not seen - every waiting recovery takes the rollback "
+               "branch, the producer is re-executed once per recovery and nothing is shared")
+
+
+RULES = [("R1", r1), ("R2", r2), ("R3", r3), ("R4", r4), ("R5", r5), ("R6", r6), ("R7", r7)]
+FLOORS = {"R1": 5, "R2": 2, "R3": 8, "R4": 4, "R5": 9, "R6": 14, "R7": 1}
 
 _REC = f"{RFM}._recover"
 _SYNC = f"{RFM}._synchronize_workflows"
 _GET = f"{RFM}.get_request"
 
+# the text between the is_recovering test of _synchronize_workflows and the synchronising call of _recover (the two
+# methods are adjacent in the class): a variant that changes both ends needs it as one contiguous span
+_SYNC_HEAD = ("retry_requests: MutableSequence[RecoveryRequest], workflow: Workflow) -> None:\n        for retry_request in retry_requests:\n"
+              "            job_name = retry_request.name\n            if await self.is_recovering(job_name):\n")
+_SYNC_TO_RECOVER = (
+    "                job_token = get_job_token(job_name, job_tokens)\n"
+    "                if logger.isEnabledFor(logging.DEBUG):\n"
+    "                    logger.debug(f'Synchronizing rollbacks for failed job {failed_job}: Job {job_name} is currently executing.')\n"
+    "                available_tokens = set()\n"
+    "                for token_id in mapper.dag_tokens.successors(job_token.persistent_id) if mapper.dag_tokens.contains(job_token.persistent_id) else []:\n"
+    "                    mapper.move_token_to_root(token_id)\n"
+    "                    available_tokens.add(token_id)\n"
+    "                for token_id in available_tokens & mapper.token_instances.keys():\n"
+    "                    new_port = _get_recovery_port(token_id, mapper, retry_request.workflow, workflow)\n"
+    "                    cast(InterWorkflowPort, retry_request.workflow.ports[new_port.name]).add_inter_port(port=new_port, boundary_tags=[job_token.tag], boundary_action=BoundaryAction.PROPAGATE)\n"
+    "            else:\n"
+    "                if logger.isEnabledFor(logging.DEBUG):\n"
+    "                    logger.debug(f'Synchronizing rollbacks for failed job {failed_job}: Job {job_name} rollback')\n"
+    "                await self._update_request(job_name)\n"
+    "                retry_request.workflow = workflow\n"
+    "\n"
+    "    async def _recover(self, failed_job: Job, failed_step: Step) -> None:\n"
+    "        workflow = failed_step.workflow\n"
+    "        workflow_builder = WorkflowBuilder(database=workflow.context.database, deep_copy=False)\n"
+    "        new_workflow = await workflow_builder.load_workflow(workflow.persistent_id)\n"
+    "        provenance = ProvenanceGraph(workflow.context)\n"
+    "        await provenance.build_graph(inputs=[*failed_job.inputs.values(), *(p.token_list[0] for p in failed_step.get_input_ports().values() if isinstance(p, ConnectorPort)), "
+    "*(get_job_token(failed_job.name, p.token_list) for p in failed_step.get_input_ports().values() if isinstance(p, JobPort))])\n"
+    "        mapper = await create_graph_mapper(self.context, provenance)\n"
+    "        job_tokens = list(filter(lambda t: isinstance(t, JobToken), mapper.token_instances.values()))\n"
+    "        retry_requests = [self.get_request(job_name) for job_name in {*(t.value.name for t in job_tokens), failed_job.name}]\n")
+_LOCKS = ("        async with contextlib.AsyncExitStack() as exit_stack:\n            for request in sorted(retry_requests, key=id):\n"
+          "                await exit_stack.enter_async_context(request.lock)\n")
+_SYNC_CALL = "            await self._synchronize_workflows(failed_job=failed_job.name, job_tokens=job_tokens, mapper=mapper, retry_requests=retry_requests, workflow=new_workflow)"
+_SNAP_HEAD = ("retry_requests: MutableSequence[RecoveryRequest], workflow: Workflow, recovering) -> None:\n        for retry_request in retry_requests:\n"
+              "            job_name = retry_request.name\n            if job_name in recovering:\n")
+_SNAP_CALL = _SYNC_CALL.replace("workflow=new_workflow)", "workflow=new_workflow, recovering=recovering)")
+_SNAP_SET = "recovering = {request.name for request in retry_requests if await self.is_recovering(request.name)}\n"
+_SNAP_LOOP = ("recovering = set()\n        for rq in retry_requests:\n            if not await self.is_recovering(rq.name):\n                continue\n"
+              "            recovering.add(rq.name)\n")
+
 VARIANTS = [
+    # ---- R7 (seeded change C19/1): the is_recovering answer is obtained under the request locks
+    V("is_recovering snapshot taken before the request locks, decision by membership", FM_FILE, RFM,
+      _SYNC_HEAD + _SYNC_TO_RECOVER + _LOCKS + _SYNC_CALL,
+      _SNAP_HEAD + _SYNC_TO_RECOVER + "        " + _SNAP_SET + _LOCKS + _SNAP_CALL, "R7", control=True),
+    V("is_recovering snapshot filled by a loop before the request locks", FM_FILE, RFM,
+      _SYNC_HEAD + _SYNC_TO_RECOVER + _LOCKS + _SYNC_CALL,
+      _SNAP_HEAD + _SYNC_TO_RECOVER + "        " + _SNAP_LOOP + _LOCKS + _SNAP_CALL, "R7"),
+    V("is_recovering snapshot taken inside the lock scope but before the acquisitions", FM_FILE, RFM,
+      _SYNC_HEAD + _SYNC_TO_RECOVER + _LOCKS + _SYNC_CALL,
+      _SNAP_HEAD + _SYNC_TO_RECOVER + _LOCKS.replace("exit_stack:\n", "exit_stack:\n            " + _SNAP_SET) + _SNAP_CALL, "R7"),
+    V("hand-over decided by the request's recorded workflow instead of is_recovering", FM_FILE, _SYNC, "if await self.is_recovering(job_name):",
+      "if retry_request.workflow is not None:", "R7"),
+    V("is_recovering snapshot taken in _recover after all locks are held", FM_FILE, RFM,
+      _SYNC_HEAD + _SYNC_TO_RECOVER + _LOCKS + _SYNC_CALL,
+      _SNAP_HEAD + _SYNC_TO_RECOVER + _LOCKS + "            " + _SNAP_SET + _SNAP_CALL, None),
+    V("is_recovering answers collected at the start of _synchronize_workflows (under the locks)", FM_FILE, _SYNC,
+      "    for retry_request in retry_requests:\n        job_name = retry_request.name\n        if await self.is_recovering(job_name):",
+      "    active = {r.name: await self.is_recovering(r.name) for r in retry_requests}\n    for retry_request in retry_requests:\n        job_name = retry_request.name\n        if active[job_name]:", None),
+    V("is_recovering answers collected as a set by a loop at the start of _synchronize_workflows", FM_FILE, _SYNC,
+      "    for retry_request in retry_requests:\n        job_name = retry_request.name\n        if await self.is_recovering(job_name):",
+      "    busy = set()\n    for r in retry_requests:\n        if await self.is_recovering(r.name):\n            busy.add(r.name)\n"
+      "    for retry_request in retry_requests:\n        job_name = retry_request.name\n        if job_name in busy:", None),
+    V("is_recovering answer through a boolean local", FM_FILE, _SYNC, "        if await self.is_recovering(job_name):",
+      "        being_recovered = await self.is_recovering(job_name)\n        if being_recovered:", None),
+    V("double negation of the is_recovering answer", FM_FILE, _SYNC, "        if await self.is_recovering(job_name):",
+      "        if not (await self.is_recovering(job_name)) is False:", None),
     V("sorted removed from the lock loop", FM_FILE, _REC, "for request in sorted(retry_requests, key=id):", "for request in retry_requests:", "R1", control=True),
     V("sort key depends on mutable state", FM_FILE, _REC, "sorted(retry_requests, key=id)", "sorted(retry_requests, key=lambda r: r.version)", "R1"),
     V("sort direction depends on the failed job", FM_FILE, _REC, "sorted(retry_requests, key=id)", "sorted(retry_requests, key=id, reverse=failed_job.name < 'm')", "R1"),
